@@ -1962,7 +1962,8 @@ meta:
 				start = l->start + len + 1;
 				len = l->start + l->len - start;
 
-				if (len && char_is_line_ending(source[start + len - 1])) {
+				// The line ending is not part of the value
+				while (len && char_is_line_ending(source[start + len - 1])) {
 					len--;
 				}
 
@@ -1979,8 +1980,17 @@ meta:
 
 			case LINE_PLAIN:
 plain:
+				// Lines are joined by the newline added here, so this line's own
+				// ending is not part of the value either (a value that ends in a
+				// backslash would otherwise lose it to the "hard break" rule)
+				len = l->len;
+
+				while (len && char_is_line_ending(source[l->start + len - 1])) {
+					len--;
+				}
+
 				d_string_append_c(d, '\n');
-				d_string_append_c_array(d, &source[l->start], l->len);
+				d_string_append_c_array(d, &source[l->start], len);
 				break;
 
 			case LINE_SETEXT_2:
